@@ -1,5 +1,4 @@
-import MjProof.Props.C49
-import MjProof.Lemmas.Introspect
+import MjProof.Model.Introspect
 import MjProof.Gen.IntrospectHeaders
 import MjProof.Gen.IntrospectPython
 /-
